@@ -42,6 +42,11 @@ class Proxy:
         if name in ch:
             return ch[name]
         v = getattr(mod, name)
+        import types
+        if isinstance(v, types.MethodType) and v.__self__ is mod and getattr(type(mod), name, None) is not None \
+                and getattr(v.__func__, "__module__", "").startswith("unit_scaling"):
+            # a helper method of the library class (e.g. a forward split into private methods): it must see the proxy as `self`
+            return types.MethodType(v.__func__, self)
         if isinstance(v, (nn.Parameter, torch.Tensor)):
             raise HarnessError(f"tensor attribute {type(mod).__name__}.{name} is not mapped to a symbolic tensor")
         if isinstance(v, nn.Module):
@@ -664,31 +669,56 @@ def task_module(name: str, cfg: Dict[str, Any], timeout: float) -> List[Dict[str
 
 # ============================================================================================ initial state, tags, depth containers
 def task_initial_state() -> List[Dict[str, Any]]:
-    """reset_parameters executed with nn.init.normal_ recorded; tags read off concretely constructed modules."""
+    """Constructors executed under a TorchFunctionMode that records every sampler / in-place write: the weight's last writer must be
+    normal_(0, 1); any other spelling of the initialiser is decided by a fixed-seed moment test on a 2^18-element weight.  Tags are
+    read off concretely constructed modules."""
     import unit_scaling as uu
+    from torch.overrides import TorchFunctionMode
     torch.set_num_threads(1)
     recs: List[Dict[str, Any]] = []
-    calls: List[Tuple[Any, float, float]] = []
-    orig = nn.init.normal_
+    events: List[Tuple[str, int, Any]] = []  # (function name, data_ptr written, (mean, std) for normal_)
 
-    def rec(t: Any, mean: float = 0.0, std: float = 1.0, generator: Any = None) -> Any:
-        calls.append((t, mean, std))
-        return orig(t, mean, std)
+    class Spy(TorchFunctionMode):
+        def __torch_function__(self, func: Any, types: Any, args: Any = (), kwargs: Any = None) -> Any:
+            kwargs = kwargs or {}
+            out = func(*args, **kwargs)
+            name = getattr(func, "__name__", "")
+            tgt = args[0] if args else kwargs.get("tensor", kwargs.get("input"))  # nn.init.* arrive with keyword arguments
+            if name.endswith("_") and not name.startswith("__") and name not in ("requires_grad_", "retain_grad_") and isinstance(tgt, torch.Tensor):
+                par = None
+                if name == "normal_":
+                    par = (float(args[1]) if len(args) > 1 else float(kwargs.get("mean", 0.0)), float(args[2]) if len(args) > 2 else float(kwargs.get("std", 1.0)))
+                events.append((name, tgt.data_ptr(), par))
+            return out
 
     bad: List[str] = []
     mods: Dict[str, nn.Module] = {}
-    nn.init.normal_ = rec  # type: ignore[assignment]
-    try:
+    with Spy():
         mods = {
             "Linear(bias)": uu.Linear(16, 8, bias=True), "Linear": uu.Linear(16, 8), "LinearReadout(bias)": uu.LinearReadout(16, 8, bias=True),
             "Conv1d(bias)": uu.Conv1d(4, 6, 3, bias=True), "Conv1d": uu.Conv1d(4, 6, 3),
         }
-    finally:
-        nn.init.normal_ = orig  # type: ignore[assignment]
+    big = {"Linear(bias)": lambda: uu.Linear(512, 512, bias=True), "Linear": lambda: uu.Linear(512, 512),
+           "LinearReadout(bias)": lambda: uu.LinearReadout(512, 512, bias=True), "Conv1d(bias)": lambda: uu.Conv1d(64, 64, 64, bias=True),
+           "Conv1d": lambda: uu.Conv1d(64, 64, 64)}
+    how: Dict[str, str] = {}
     for n, m in mods.items():
-        hit = [c for c in calls if c[0] is m.weight or c[0].data_ptr() == m.weight.data_ptr()]
-        if not hit or any((c[1], c[2]) != (0.0, 1.0) for c in hit):
-            bad.append(f"{n}: weight initialiser is not N(0,1) ({[(c[1], c[2]) for c in hit]})")
+        writers = [e for e in events if e[1] == m.weight.data_ptr()]
+        if writers and writers[-1][0] == "normal_" and writers[-1][2] == (0.0, 1.0):
+            how[n] = "last writer normal_(0, 1)"
+        else:
+            # another spelling (or another distribution): decided on the real constructor by the first four moments, fixed seed
+            st = torch.random.get_rng_state()
+            torch.manual_seed(20240229)
+            w = big[n]().weight.detach().double().flatten()
+            torch.random.set_rng_state(st)
+            mu, sd = w.mean().item(), w.std().item()
+            z = (w - mu) / sd
+            sk, ku = (z ** 3).mean().item(), (z ** 4).mean().item()
+            ok = abs(mu) < 0.01 and abs(sd - 1) < 0.008 and abs(sk) < 0.025 and abs(ku - 3) < 0.05
+            how[n] = f"moment test on {w.numel()} elements: mean {mu:.4f} std {sd:.4f} skew {sk:.4f} kurtosis {ku:.4f}"
+            if not ok:
+                bad.append(f"{n}: weight initialiser is not N(0,1) (writers {[(e[0], e[2]) for e in writers]}; {how[n]})")
         if m.bias is not None and not torch.equal(m.bias.detach(), torch.zeros_like(m.bias)):
             bad.append(f"{n}: bias not zero")
     more = {"LayerNorm": uu.LayerNorm(8, elementwise_affine=True), "RMSNorm": uu.RMSNorm(8, elementwise_affine=True), "Embedding": uu.Embedding(11, 8),
@@ -735,7 +765,7 @@ def task_initial_state() -> List[Dict[str, Any]]:
         recs.append({"type": "violation", "key": "C08/initial-state", "what": "; ".join(bad[:6]), "replay": {"kind": "initial"}})
     else:
         recs.append({"type": "obligation", "name": "initial-state: N(0,1) initialiser, zero biases, unit gains, expected tags on every parameter", "status": CONCRETE,
-                     "queries": 0, "kind": "concrete", "detail": f"{len(allm)} module instances; nn.init.normal_ recorded with (mean, std) = (0, 1)"})
+                     "queries": 0, "kind": "concrete", "detail": f"{len(allm)} module instances; weight initialisers: {how}"})
     recs.append({"type": "function", "functions": [describe_function(uu.Linear.reset_parameters), describe_function(uu.Conv1d.reset_parameters)]})
     return recs
 
